@@ -73,9 +73,26 @@ impl Check for C11 {
             rec.skip();
             return;
         };
-        let entries: Vec<String> = ledger.entries.iter().map(|e| entry_text(e).0).collect();
+        let mut entries: Vec<String> = ledger.entries.iter().map(|e| entry_text(e).0).collect();
+        // a third of the ledgers carry the same one-line entry twice; it is later moved into one
+        // shared file included from both places
+        const SHARED: &str = "; standing note kept in a shared file\n";
+        let share = rng.chance(1, 3);
+        if share {
+            for _ in 0..2 {
+                let pos = rng.usize(entries.len() + 1);
+                entries.insert(pos, SHARED.to_string());
+            }
+        }
         let whole: String = entries.iter().map(|e| format!("{}\n", e)).collect();
         let mut tree = Tree::split(&mut rng, &entries);
+        if share {
+            tree.share_duplicate(&entries, SHARED);
+        }
+        if rng.chance(1, 3) {
+            let n = 1 + rng.usize(2);
+            tree.include_empty_files(&mut rng, n);
+        }
         // one tree in ten carries an include that matches nothing
         let nomatch = if rng.chance(1, 10) {
             let victim = rng.pick(&tree.files.keys().filter(|k| !tree.files[*k].starts_with("THIS FILE")).cloned().collect::<Vec<_>>()).clone();
